@@ -83,6 +83,10 @@ pub enum GScript {
     /// duplex echo of the first k inputs, then the pipeline ends (the generator stops and is restarted)
     EchoFirst(usize),
     MissingHash,
+    /// the spawn names content that is not valid UTF-8
+    NotUtf8,
+    /// the spawn names a hash whose content was never stored
+    AbsentContent,
 }
 
 #[derive(Serialize, Deserialize, Clone, Debug, PartialEq)]
@@ -266,7 +270,7 @@ pub fn gen_expr(g: &GScript) -> Option<String> {
         GScript::Empty => Some("[] | each {|x| $x}".to_string()),
         GScript::Echo => Some("each {|x| $\"hi: ($x)\"}".to_string()),
         GScript::EchoFirst(k) => Some(format!("each {{|x| $\"hi: ($x)\"}} | first {}", k)),
-        GScript::MissingHash => None,
+        GScript::MissingHash | GScript::NotUtf8 | GScript::AbsentContent => None,
     }
 }
 
@@ -413,6 +417,8 @@ struct Run {
     /// model: active handler per (ctx, name)
     active: HashMap<(Scru128Id, String), Scru128Id>,
     cas_watch_fail: std::sync::Arc<std::sync::Mutex<Vec<String>>>,
+    /// hashes the operator put on a frame without ever storing content for them
+    absent: std::collections::HashSet<String>,
     restarts: usize,
     /// log position of the last restart (frames before it were produced by an earlier incarnation)
     last_restart_pos: usize,
@@ -480,6 +486,7 @@ impl Run {
             ticks_1s: Vec::new(),
             active: HashMap::new(),
             cas_watch_fail,
+            absent: Default::default(),
             restarts: 0,
             last_restart_pos: 0,
             restart_positions: Vec::new(),
@@ -588,7 +595,7 @@ impl Run {
                 Picked::Ran(_) => {}
             }
             let fails: Vec<String> = std::mem::take(&mut *self.cas_watch_fail.lock().unwrap());
-            if let Some(h) = fails.first() {
+            if let Some(h) = fails.iter().find(|h| !self.absent.contains(*h)) {
                 return violation("cas/missing-when-visible", format!("a frame with hash {} became observable while that content was not yet retrievable from the CAS", h));
             }
         }
@@ -1451,16 +1458,26 @@ impl Run {
     fn spawn_gen(&mut self, i: usize, name: usize, ctx: usize, gen: &GScript, duplex: bool) -> R<()> {
         let c = self.ctx(ctx);
         let n = GNAMES[name % GNAMES.len()];
-        let hash = match gen_expr(gen) {
-            Some(e) => Some(self.cas(&e)?),
-            None => None,
+        let hash = match (gen_expr(gen), gen) {
+            (Some(e), _) => Some(self.cas(&e)?),
+            (None, GScript::NotUtf8) => Some(self.store.cas_insert_sync([0xffu8, 0xfe, 0x00, 0x80, 0xc3]).map_err(|e| Stop::Harness(format!("cas_insert_sync: {}", e)))?),
+            (None, GScript::AbsentContent) => {
+                let h = ssri::Integrity::from(format!("never stored {}", i).as_bytes());
+                self.absent.insert(h.to_string());
+                Some(h)
+            }
+            (None, _) => None,
         };
+        let unusable = matches!(gen, GScript::MissingHash | GScript::NotUtf8 | GScript::AbsentContent);
+        if unusable && *gen != GScript::MissingHash {
+            self.w.probe("gen:unreadable-expression");
+        }
         // every other spawn carries an annotation next to the option the service knows
         let meta = if i % 2 == 0 { serde_json::json!({"duplex": duplex}) } else { serde_json::json!({"duplex": duplex, "origin": "sim"}) };
         let f = self.op_append(Frame::builder(format!("{}.spawn", n), c).maybe_hash(hash).meta(meta).build())?;
         let same_running = self.gens.iter().any(|g| g.name == n && g.ctx == c && g.expect_accept != Some(false));
         let other_ctx_running = self.gens.iter().any(|g| g.name == n && g.ctx != c && g.expect_accept != Some(false));
-        let expect_accept = if *gen == GScript::MissingHash || same_running {
+        let expect_accept = if unusable || same_running {
             Some(false)
         } else if other_ctx_running {
             None
@@ -2177,7 +2194,11 @@ pub fn generate(seed: u64, prop: &str, thorough: bool) -> Plan {
                         2 => GScript::Stream(rng.range(1, 4)),
                         3 => GScript::Empty,
                         4 => GScript::Echo,
-                        5 => GScript::MissingHash,
+                        5 => match rng.below(3) {
+                            0 => GScript::MissingHash,
+                            1 => GScript::NotUtf8,
+                            _ => GScript::AbsentContent,
+                        },
                         _ => GScript::EchoFirst(rng.range(1, 2)),
                     },
                     duplex: false,
@@ -2242,7 +2263,11 @@ pub fn generate(seed: u64, prop: &str, thorough: bool) -> Plan {
                         gens.push(match rng.weighted(&[30, 30, 25, 15]) {
                             0 => GScript::Single("again".to_string()),
                             1 => GScript::Stream(rng.range(1, 3)),
-                            2 => GScript::MissingHash,
+                            2 => match rng.below(3) {
+                                0 => GScript::MissingHash,
+                                1 => GScript::NotUtf8,
+                                _ => GScript::AbsentContent,
+                            },
                             _ => GScript::Echo,
                         });
                     }
